@@ -29,6 +29,9 @@ type totObs struct {
 	LimitHit   bool
 	WriterFail int
 	ReaderFail bool
+	// HealthyAfterFailed: healthy Format/Render calls made after a call whose
+	// writer had failed, in the same process
+	HealthyAfterFailed int
 }
 
 // checkC04 runs every entry point over one document under one environment
@@ -204,6 +207,28 @@ func checkC04(s *Scenario) (fail *Failure, obs *totObs) {
 				wobs := realWalk(v, s.Walk, tree, 0, 1<<40)
 				end()
 				obs.Callbacks += wobs.Callbacks
+			}
+			if !healthy && obs.WriterFail > 0 && s.Reader.Fault.Kind != "error" && !obs.LimitHit {
+				// the writer of THIS call does not fail: whatever an earlier,
+				// failed call left behind, rendering and formatting must report
+				// no error now
+				begin("format")
+				_, hw := newSimWriter(nil)
+				err := formatBlocks(hw, tree)
+				end()
+				if err != nil {
+					return &Failure{Check: "format-err", Observed: fmt.Sprintf("Format on a healthy writer, after an earlier call's writer had failed, returned %v", err)}
+				}
+				if len(s.Renders) > 0 {
+					begin("render")
+					_, hw2 := newSimWriter(nil)
+					err := makeRenderer(&s.Renders[0], rrefs).Render(hw2, tree)
+					end()
+					if err != nil {
+						return &Failure{Check: "render-err", Observed: fmt.Sprintf("Render on a healthy writer, after an earlier call's writer had failed, returned %v", err)}
+					}
+				}
+				obs.HealthyAfterFailed++
 			}
 		}
 		return nil
